@@ -23,7 +23,7 @@ import (
 type stepC12 struct {
 	Setter   string `json:"setter"`
 	Index    int    `json:"index"`
-	Probe    int    `json:"probe,omitempty"` // read-only operation run after the call (see api.Probe)
+	Probe    int    `json:"probe,omitempty"`             // read-only operation run after the call (see api.Probe)
 	Reuse    bool   `json:"reuse_will_object,omitempty"` // SetWill: change the previously attached *Publish and attach the same object again
 	AfterGob string `json:"model_after_gob"`
 	After    string `json:"model_after"`
